@@ -100,6 +100,16 @@ def gen_cases(rng, tier):
             for evs in ([(t0 + 500, "X"), (t0 + 1500, "R"), (t0 + 3500, "R")], [(t0 + 100, "R"), (t0 + 600, "X"), (t0 + 700, "X"), (t0 + 20000, "R")],
                         [(t0 + 31000, "X"), (t0 + 31900, "R"), (t0 + 32100, "R")], [(t0 + 1, "X")]):
                 cases.append(_case("xs%d" % n, "ni", 0, code, t0, evs)); n += 1
+    # the application answers late: the retransmissions that queued up meanwhile (timer E of the client: 0.5, 1.5, 3.5, 7.5, then every
+    # 4 s) are answered when the response is there, one copy each, and none of them is shown to the application again
+    E_SCHED = [500, 1500, 3500, 7500, 11500, 15500, 19500, 23500, 27500, 31500]
+    for t0 in (2000, 12000, 24000, 28000, 31900):
+        for code in (200, 404):
+            pre = [(t, "R") for t in E_SCHED if t < t0]
+            post = [(t0 + 700, "R"), (t0 + 31000, "R")]
+            evs = pre + post
+            horizon = t0 + TO + 40000
+            cases.append(["late%d" % n, "c06", "ni", "0", str(code), str(t0), ",".join("%d:%s" % e for e in evs), str(horizon), "", ""]); n += 1
     nrand = 120 if tier == "quick" else 3000
     for i in range(nrand):
         kind = rng.choice(["ni", "inv"])
@@ -129,6 +139,12 @@ def _toks(impl):
             return None, None
         evs.append((m.group(1), int(m.group(2)), m.group(3)))
     return evs, tsx
+
+
+def accepts(case, impl, model):
+    if case[0].startswith("late"):
+        return True      # retransmissions queued before the answer are outside the timed model: decided by the oracle
+    return impl == model
 
 
 def model_case(case, impl):
@@ -173,7 +189,8 @@ def oracle(case, impl):
     res = [(e[0], e[1]) for e in evs if e[0] in ("D", "T")]
     layer = [(e[1], e[2]) for e in evs if e[0] == "L"]
     if kind == "ni":
-        exp = [t0] + ([] if rel else [t for (t, k) in inj if k == "R" and t0 < t < t0 + TO])
+        queued = [t for (t, k) in inj if k == "R" and t < t0]        # retransmissions that arrived before the application answered
+        exp = [t0] * (1 + (0 if rel else len(queued))) + ([] if rel else [t for (t, k) in inj if k == "R" and t0 < t < t0 + TO])
         if sends != exp:
             return ["non-INVITE: response transmissions at %r, expected %r" % (sends, exp)]
         if res != [("D", t0)]:
